@@ -169,14 +169,18 @@ def nir_cone(nl, const_inputs, value, var_of_net):
     return [xt(net(n)) for n in value]
 
 
-def ff_of_signal(nl, name_suffix):
-    """Find the flip-flop cell whose output is the Signal with the given name; returns (cell index, cell)."""
+def ff_of_signal(nl, name_suffix, width=None):
+    """Find the flip-flop cell whose output is the Signal with the given name; returns (cell index, cell).
+    If no signal of that name drives a flip-flop (e.g. the register was renamed) and `width` is given, fall back to
+    the unique flip-flop of that width -- the extraction must not depend on an internal identifier."""
     hits = []
     for sig, v in nl.signals.items():
         if sig.name == name_suffix and len(v) and not v[0].is_const and isinstance(nl.cells[v[0].cell], _nir.FlipFlop):
             if all(n.cell == v[0].cell and n.bit == k for k, n in enumerate(v)):
                 hits.append(v[0].cell)
     hits = sorted(set(hits))
+    if len(hits) != 1 and width is not None:
+        hits = [i for i, c in enumerate(nl.cells) if isinstance(c, _nir.FlipFlop) and len(c.data) == width]
     if len(hits) != 1:
         raise Unsupported(f"register {name_suffix}: {len(hits)} candidates")
     return hits[0], nl.cells[hits[0]]
